@@ -20,7 +20,7 @@ P = {
   "As C03.", "§3 C04, §11.16"),
  "C05": (True, "model_checking", "explicit-state table exploration (head of every state's output chain = longest pattern ending there) + transition cover of the no-suffix iterators + bounded-exhaustive enumeration",
   "As C01 for the no-suffix iterators.", "Same trusted base as C01.", "§3 C05"),
- "C06": (True, "exploration", "bounded-exhaustive enumeration of pattern sets x value assignments x 13 value types x match kinds x search methods, before and after a serialisation round trip",
+ "C06": (True, "exploration", "bounded-exhaustive enumeration of pattern sets x value assignments x 16 value types (13 built-in, Empty, three user-defined Serializable) x match kinds x search methods, before and after a serialisation round trip; scale cases (haystacks/patterns/pattern counts beyond 65 535)",
   "Every function from the patterns of each small set to {0,1,MAX} (signed: MIN,-1,0,MAX) is built with build_with_values and every match of every haystack is checked against the registered value; bare patterns must carry their position; 256/128-pattern index boundary for u8/i8.",
   "Bounded sets (<= 3 patterns). Table-level values for all haystacks come from C01's E1.", "§3 C06"),
  "C07": (True, "model_checking", "closure exploration of the raw table of every automaton (all reachable states x all labels, fail links, output chains) with a bounds-checked interpreter, for built and deserialised automata; all enumeration sweeps executed with std's unsafe-precondition checks on; UTF-8 decoder swept over all 1,112,064 scalar values",
@@ -41,9 +41,9 @@ P = {
  "C12": (True, "exploration", "bounded-exhaustive enumeration with an instrumented byte source: the pull count is asserted after every next() of every call history",
   "For every case of the small scopes and the three byte-iterator methods on both variants: matches equal the slice search, and when a match ending at e is returned exactly e bytes have been pulled; after None all n.",
   "Bounded inputs.", "§3 C12"),
- "C13": (True, "model_checking", "ranking argument checked on the explored state graph of every automaton (fail links strictly decrease depth, output parents decrease, local amortisation inequality hops <= depth(s)+1-depth(next) for every reachable (state,label), exact longest-path check when it fails); fail-hop counter of the real loop compared with the model on every pair",
-  "Termination and the 2n bound follow for every haystack of each explored automaton by telescoping; the real loop's hop count is read from a hook around every real call; E2 sweeps also measure hops <= n per haystack.",
-  "Designed population; hop counter is a cfg-guarded hook.", "§3 C13"),
+ "C13": (True, "model_checking", "reference-free ranking analysis on the explored graph of every automaton: closure of the root under child edges (all labels) and fail links; every fail chain reaches the root and every output chain ends; standard kind: longest-path worklist over the real transition graph with the hop counts measured on the crate's own transition loop shows phi(s) = max over paths of sum(fail hops - 1) <= 0, which is equivalent to the 2n bound for that automaton",
+  "Termination and the 2n bound are decided for every haystack of each explored automaton (exact, not a sufficient condition); a violation comes with a shortest witness haystack measured again on the real iterator; E2 sweeps also measure hops <= n per haystack; a hang inside library code is turned into a violation by the watchdog.",
+  "Designed population; the hop counter is a cfg-guarded hook in the transition loops.", "§3 C13, §11.3"),
  "C14": (True, "model_checking", "all n! registration orders of every small pattern set (byte-identical images), double builds, all merges of next() call sequences of 2-3 iterators, and exhaustive DFS (shuttle) over all byte-pull interleavings of 2-3 threads sharing one automaton",
   "Order independence is enumerated over all permutations; purity over all sequential merges; the thread clause over every interleaving of source pulls under a controlled scheduler (the automaton has no synchronisation, so the byte source is the only seam).",
   "loom/shuttle see no scheduling points inside daachorse; yields are injected in the byte source. Unsynchronised writes are ruled out by the image-unchanged oracle and a Sync/Send compile probe.", "§3 C14"),
